@@ -213,8 +213,8 @@ class Rig:
         self._env = env
         if check:
             got = [g() for g in self._get]
-            if not (all(type(a) is type(b) and same_val(a, b) for a, b in zip(got, env))
-                    and same_val(self._battery(), env[3])):
+            # `==`, not the sign of a zero: the simulation keeps the stored value when the new one compares equal
+            if not (all(type(a) is type(b) and a == b for a, b in zip(got, env)) and self._battery() == env[3]):
                 self.env_bad.append((env, got))
 
     def read(self, key, v, env=NOMINAL):
@@ -1206,7 +1206,13 @@ def search_violations(ctx, state):
                 pairs.setdefault(env, []).append((v, o[1]))
         if per:
             per.sort(key=lambda t: t[:5])
-            _, _, _, _, _, env, v, clause = per[0]
+        done = set()
+        for _, _, _, _, _, env, v, clause in per:
+            # the best input of each clause that fails, at most two clauses per sensor (e.g. "raises with the 5 V
+            # rail at 0 V" and "off the power law with the rail at 4.6 V")
+            if clause in done or len(done) >= 2:
+                continue
+            done.add(clause)
 
             def fails(e, v=v, clause=clause):
                 o = rig.read(K, v, e)[1]
